@@ -327,6 +327,9 @@ func runWorker(bin, id, tier string, seed uint64, j *job, shard, attempt int, sk
 	cmd.SysProcAttr = &syscall.SysProcAttr{Setpgid: true, Pdeathsig: syscall.SIGKILL}
 	r := &shardResult{job: j, shard: shard, attempt: attempt, startSkip: skip}
 	start := time.Now()
+	// Pdeathsig follows the creating *thread*: keep it alive (and ours) until the worker is gone
+	runtime.LockOSThread()
+	defer runtime.UnlockOSThread()
 	if err := cmd.Start(); err != nil {
 		r.exitCode = 3
 		r.stderr = err.Error()
